@@ -14,6 +14,7 @@ from __future__ import annotations
 import itertools
 import json
 import os
+import re
 import shutil
 import socket
 import struct
@@ -424,6 +425,10 @@ WHAT = {
     "F3:leftover-bytes-answered-to-next-client": "bytes a client sends after its request stay in IPCServer.buffer (the server object outlives the connection) and are "
                                                  "taken for the next client's request: that client is answered for a request it never made",
 }
+WHAT["F3:stalled-client-blocks-daemon"] = ("a client that connects and then neither sends nor closes keeps the single-threaded daemon in recv() for good (the accepted "
+                                           "connection has no timeout, --timeout only covers accept): no later client is served and the idle exit never happens")
+WHAT["F3:hangup-during-streamed-output-kills-daemon"] = ("on a daemon whose commands print while they run (-v: manager.log -> sys.stderr = WriteToConn), a client that hangs up "
+                                                         "makes the write raise BrokenPipeError inside the command; the crash report cannot be sent either: the daemon exits")
 REPLY_NAMES = ["NoReply", "ErrNoCommand", "ErrNotStr", "ErrUnknown", "ErrBadArgs", "Done", "Stopped", "CrashReport"]
 
 
@@ -447,11 +452,35 @@ class Step:
     model is told to classify the payload (tag, see C16/ServeInst.v)"""
 
     def __init__(self, name: str, chunks: list[bytes], stays: bool, model: str, fault: str | None = None,
-                 expect_check: str | None = None, edit: str | None = None):
+                 expect_check: str | None = None, edit: str | None = None, kind: str = "conn"):
         self.name, self.chunks, self.stays, self.model = name, chunks, stays, model
+        self.kind = kind                # "conn" | "stalled" (writes the chunks, then neither sends nor closes) | "idle" (nobody connects)
         self.fault = fault              # finding class when this step is a client fault
         self.expect_check = expect_check  # "v1"/"v2": reply must equal a fresh mypy run on that version
         self.edit = edit                # write this content to a.py before connecting
+
+
+def model_event(st: Step) -> str:
+    return {"conn": f"Conn ({st.model})", "stalled": f"Stalled {st.model}", "idle": "IdleTimeout"}[st.kind]
+
+
+def stalled_step(k: int) -> Step:
+    fs = frame(STATUS)
+    return Step(f"stalled@{k}", [fs[:k]] if k else [], True, f"[firstn {k} ({mfr(9, STATUS)})]" if k else "[]",
+                fault="F3:stalled-client-blocks-daemon", kind="stalled")
+
+
+def idle_step() -> Step:
+    return Step("idle", [], False, "", kind="idle")
+
+
+def verbose_steps() -> dict[str, Step]:
+    """on a daemon started with -v the build logs through sys.stderr = WriteToConn while `check` runs (tag 12)"""
+    return {
+        "check-verbose": step_request("check-verbose", CHECK, 12),
+        "hangup-check-verbose": step_request("hangup-check-verbose", CHECK, 12, stays=False,
+                                             fault="F3:hangup-during-streamed-output-kills-daemon"),
+    }
 
 
 def mfr(tag: int, payload: bytes) -> str:
@@ -473,6 +502,8 @@ def fault_steps(args_validated: bool = False) -> dict[str, Step]:
     out["garbage"] = step_request("garbage", g, 2, fault="F3:connect-close-kills-daemon")
     u = b"\xff\xfe{}"
     out["bad-utf8"] = step_request("bad-utf8", u, 1, fault="F3:invalid-utf8-kills-daemon")
+    # json.loads raises RecursionError (not a ValueError) on this: still "not valid JSON" for receive()
+    out["deep-json"] = step_request("deep-json", b"[" * 200000, 2, fault="F3:connect-close-kills-daemon")
     out["non-dict"] = step_request("non-dict", b"[1, 2]", 3, fault="F3:connect-close-kills-daemon")
     out["empty-frame"] = Step("empty-frame", [frame(b"")], True, "mk_conn [encode_frame []] true", fault="F3:connect-close-kills-daemon")
     out["oversized-header"] = Step("oversized-header", [b"\xff\xff\xff\xffabc"], False,
@@ -531,8 +562,8 @@ for line in sys.stdin:
             devnull = os.open(os.devnull, os.O_RDONLY)
             os.dup2(devnull, 0); os.dup2(fd, 1); os.dup2(fd, 2)
             sys.stdin = open(0, closefd=False); sys.stdout = open(1, "w", closefd=False); sys.stderr = open(2, "w", closefd=False)
-            options = process_start_options(["--cache-dir", req["cache"]], False)
-            Server(options, req["status_file"]).serve()
+            options = process_start_options(req.get("flags", []) + ["--cache-dir", req["cache"]], False)
+            Server(options, req["status_file"], timeout=req.get("timeout")).serve()
         finally:
             sys.stdout.flush(); sys.stderr.flush()
             os._exit(0)
@@ -552,7 +583,7 @@ class ForkServer:
         self.p = subprocess.Popen([vlib.PY, "-c", FORKSERVER], stdin=subprocess.PIPE, stdout=subprocess.PIPE, text=True, env=env)
         self.lock = threading.Lock()
 
-    def spawn(self, req: dict[str, str]) -> int:
+    def spawn(self, req: dict[str, Any]) -> int:
         with self.lock:
             assert self.p.stdin and self.p.stdout
             self.p.stdin.write(json.dumps(req) + "\n")
@@ -569,8 +600,11 @@ class ForkServer:
 
 
 class Daemon:
-    def __init__(self, fs: "ForkServer | None" = None) -> None:
+    def __init__(self, fs: "ForkServer | None" = None, idle: int | None = None, verbose: bool = False,
+                 conn_timeout: bool = False) -> None:
         self.fs = fs
+        self.idle, self.verbose, self.conn_timeout = idle, verbose, conn_timeout
+        self.held: list[socket.socket] = []     # connections of stalled clients, kept open until the scenario ends
         self.dir = tempfile.mkdtemp(prefix="verif-c16-")
         self.status_file = os.path.join(self.dir, "status.json")
         with open(os.path.join(self.dir, "a.py"), "w") as f:
@@ -582,13 +616,14 @@ class Daemon:
     def start(self, extra: "list[str] | None" = None) -> None:
         if self.fs is not None:
             self.fs.spawn({"dir": self.dir, "status_file": self.status_file, "cache": os.path.join(self.dir, "cache"),
-                           "log": os.path.join(self.dir, "log")})
+                           "log": os.path.join(self.dir, "log"), "timeout": self.idle, "flags": ["-v"] if self.verbose else []})
             self.wait_status()
             return
         env = vlib.py_env()
         env.pop("MYPY_CACHE_DIR", None)
         st, out = vlib.sh([vlib.PY, "-m", "mypy.dmypy", "--status-file", self.status_file, "start", "--log-file",
-                           os.path.join(self.dir, "log")] + (extra or []) + ["--", "--cache-dir", os.path.join(self.dir, "cache")],
+                           os.path.join(self.dir, "log")] + (extra or []) + (["--timeout", str(self.idle)] if self.idle else [])
+                          + ["--"] + (["-v"] if self.verbose else []) + ["--cache-dir", os.path.join(self.dir, "cache")],
                           cwd=self.dir, env=env, timeout=180)
         if st != 0 and "Timed out waiting" not in out:
             raise RuntimeError("dmypy start failed: " + out[-500:])
@@ -617,6 +652,10 @@ class Daemon:
 
     def connect(self, st: Step) -> tuple[int, dict[str, Any] | None]:
         """perform one client connection; returns (reply code, final response)"""
+        if st.kind == "idle":
+            # nobody connects: a daemon with --timeout leaves; wait for that (bounded), no reply either way
+            self.wait_dead(120 if self.idle else 1)
+            return 0, None
         if st.edit is not None:
             with open(os.path.join(self.dir, "a.py"), "w") as f:
                 f.write(st.edit)
@@ -627,7 +666,7 @@ class Daemon:
         s.settimeout((180 if st.expect_check else 30) if not self.wedged else (30 if st.expect_check else 5))
         buf = b""
         try:
-            deadline = time.time() + 120
+            deadline = time.time() + (120 if not self.wedged else 5)
             while True:
                 try:
                     s.connect(self.name)
@@ -643,6 +682,13 @@ class Daemon:
                     s.sendall(c)
             except OSError:
                 pass        # the peer may already have answered and closed (it must not, but what it sent is still read below)
+            if st.kind == "stalled":
+                # neither send more nor close.  A daemon without a receive timeout now sits in recv for good: later
+                # steps of this scenario wait less (the outcome "no reply" does not depend on how long we wait)
+                self.held.append(s)
+                if not self.conn_timeout:
+                    self.wedged = True
+                return 0, None
             if st.stays:
                 while True:
                     m = s.recv(1 << 16)
@@ -654,7 +700,8 @@ class Daemon:
         except OSError:
             pass
         finally:
-            s.close()
+            if s not in self.held:
+                s.close()
         final = None
         while len(buf) >= 4:
             n = struct.unpack("!L", buf[:4])[0]
@@ -681,6 +728,11 @@ class Daemon:
         return 4, final
 
     def cleanup(self) -> None:
+        for h in self.held:
+            try:
+                h.close()
+            except OSError:
+                pass
         if self.pid and self.alive():
             try:
                 os.kill(self.pid, 9)
@@ -703,9 +755,9 @@ def fresh_mypy(content: str) -> str:
         shutil.rmtree(d, ignore_errors=True)
 
 
-def run_scenario(steps: list[Step], fs: "ForkServer | None" = None) -> dict[str, Any]:
+def run_scenario(steps: list[Step], fs: "ForkServer | None" = None, opts: dict[str, Any] | None = None) -> dict[str, Any]:
     """run the steps against one real daemon; returns observed replies, final liveness / status file, check outputs"""
-    d = Daemon(fs)
+    d = Daemon(fs, **(opts or {}))
     try:
         d.start()
         replies, finals = [], []
@@ -721,7 +773,7 @@ def run_scenario(steps: list[Step], fs: "ForkServer | None" = None) -> dict[str,
         if d.alive():
             code, _ = d.connect(probe())
             answers = code == 5
-        if not answers:
+        if not answers and not d.held:
             d.wait_dead(15)           # on its way out?  (a daemon that is alive but wedged is not "exited")
         serving = d.alive()
         log = ""
@@ -753,6 +805,7 @@ def serve_stage(ctx: vlib.Ctx, shape_flags: dict[str, bool] | None) -> None:
         faults = {k: v for k, v in faults.items() if not k.startswith("close@") or k in keep}
         ctx.cov["serve_reduced"] = "framing violations found: per-offset early-close sweep reduced to 4 offsets"
     names = list(faults)
+    sopts: dict[str, dict[str, Any]] = {}
     workers = max(2, min(10, vlib.NPROC - 4))
     fs = ForkServer()
     t = time.time()
@@ -769,7 +822,28 @@ def serve_stage(ctx: vlib.Ctx, shape_flags: dict[str, bool] | None) -> None:
                     if rng.random() < 0.5:
                         seq.append(probe())
                 scenarios.append((f"random{i}", seq + [probe(), stop_step()]))
-            futs = [ex.submit(run_scenario, steps, fs) for _, steps in scenarios]
+            # stalled clients (connect, write k bytes, then neither send nor close), idle exit (--timeout), and a client
+            # that hangs up while a verbose daemon streams its log to it
+            ct = bool(shape_flags and shape_flags.get("conn_timeout"))
+            flen = len(frame(STATUS))
+            for k in (0, 2, 4, 9, flen - 1):
+                scenarios.append((f"stalled@{k}", [stalled_step(k), probe(), stop_step()]))
+            scenarios.append(("stalled-after-work", [probe(), faults["unknown-command"], stalled_step(5), probe(), probe("status2")]))
+            for n, _ in scenarios[-6:]:
+                sopts[n] = {"conn_timeout": ct}
+            # a request of a different length right after a connection that died inside a frame (its parsed header
+            # must not survive into the next connection)
+            long_status = step_request("status-long", jreq("status", fswatcher_dump_file=None), 9)
+            for k in (4, 10, flen - 1):
+                scenarios.append((f"close@{k}-then-longer-request", [faults[f"close@{k}"], long_status, probe(), stop_step()]))
+            scenarios.append(("idle", [idle_step()]))
+            scenarios.append(("idle-after-fault", [faults["close@0"], idle_step()]))
+            sopts["idle"] = sopts["idle-after-fault"] = {"idle": 4}
+            vb = verbose_steps()
+            scenarios.append(("verbose-hangup", [vb["hangup-check-verbose"], probe(), stop_step()]))
+            scenarios.append(("verbose-check-then-hangup", [vb["check-verbose"], vb["hangup-check-verbose"], probe(), stop_step()]))
+            sopts["verbose-hangup"] = sopts["verbose-check-then-hangup"] = {"verbose": True}
+            futs = [ex.submit(run_scenario, steps, fs, sopts.get(n)) for n, steps in scenarios]
             cli = ("cli-start", [probe(), faults["unknown-command"], faults["close@0"], probe(), stop_step()])
             scenarios.append(cli)
             futs.append(ex.submit(run_scenario, cli[1], None))
@@ -818,7 +892,8 @@ def serve_stage(ctx: vlib.Ctx, shape_flags: dict[str, bool] | None) -> None:
     # ---- model predictions
     header = ("From Coq Require Import ZArith List Bool.\nFrom C16 Require Import Bytes Shape Model Serve ServeInst.\n"
               "From Gen Require Import Frame ServeShape.\nImport ListNotations.\n")
-    exprs = ["session current_shape [" + "; ".join(st.model for st in steps) + "]" for _, steps in scenarios]
+    exprs = [f"esession current_shape {'true' if sopts.get(n, {}).get('idle') else 'false'} [" + "; ".join(model_event(st) for st in steps) + "]"
+             for n, steps in scenarios]
     # no shape extracted (broken T, already reported): there is no model of the current loop to compare with;
     # the S oracle below still runs on the implementation
     model = ctx.eval_cases("serve", header, exprs, per_file=12) if shape_flags is not None else None
@@ -829,9 +904,10 @@ def serve_stage(ctx: vlib.Ctx, shape_flags: dict[str, bool] | None) -> None:
             continue
         obs = f"([{'; '.join(str(r) for r in res['replies'])}], ({'true' if res['serving'] else 'false'}, {'true' if res['status_file'] else 'false'})"
         if model is not None:
-            m = model[i]
-            mm = m.rsplit(", [", 1)[0] if ", [" in m else m      # drop the executed-command log
-            mm = mm.replace("%Z", "")
+            m = model[i].replace("%Z", "")
+            mo = re.match(r"\(\[(.*?)\],\((true|false),(true|false)\),(true|false),\[", m.replace(" ", ""))
+            # process still there (serving, or blocked in recv on a stalled client) / status file present
+            mm = f"([{mo.group(1)}], ({mo.group(2)}, {mo.group(3)})" if mo else m
             if mm.replace(" ", "") != obs.replace(" ", ""):
                 ctx.broke("C", "serve model vs real daemon", f"scenario {name} [{', '.join(s.name for s in steps)}]: model {mm} daemon {obs}",
                           {"scenario": name, "steps": [s.name for s in steps], "model": m, "daemon": obs, "log": res["log"][-600:]})
@@ -843,7 +919,7 @@ def serve_stage(ctx: vlib.Ctx, shape_flags: dict[str, bool] | None) -> None:
             if st.fault:
                 injected += 1
             if dead_after is None and not stopped:
-                if st.fault is None and st.name != "stop" and code != 5:
+                if st.fault is None and st.kind == "conn" and st.name != "stop" and code != 5:
                     # a well-formed request not answered: the culprit is among the faults since the last answered
                     # request.  One candidate: exact.  Several (multi-fault sessions): skip when a single-fault
                     # scenario has already pinned one of them, else report the sequence.
@@ -863,7 +939,7 @@ def serve_stage(ctx: vlib.Ctx, shape_flags: dict[str, bool] | None) -> None:
                         key = "F3:two-frames-breaks-daemon"
                     ctx.violation(key, f"after client fault `{blame}` the daemon does not answer a later `{st.name}` request "
                                   f"(reply {REPLY_NAMES[code]}); {what}",
-                                  {"kind": "serve", "scenario": name, "steps": [s.name for s in steps], "replies": res["replies"],
+                                  {"kind": "serve", "scenario": name, "opts": sopts.get(name, {}), "steps": [s.name for s in steps], "replies": res["replies"],
                                    "fault": blame, "log": res["log"][-800:]})
                     dead_after = blame
                 elif st.expect_check and code == 5:
@@ -873,7 +949,7 @@ def serve_stage(ctx: vlib.Ctx, shape_flags: dict[str, bool] | None) -> None:
                         prev = [s for s in steps[:j] if s.fault]
                         blame = prev[-1].name if prev else "-"
                         ctx.violation(f"F3:check-differs-after:{blame}", f"check after fault `{blame}` differs from a fresh mypy run: {got[:200]!r} vs {fresh[st.expect_check][:200]!r}",
-                                      {"kind": "serve", "scenario": name, "steps": [s.name for s in steps], "got": got, "fresh": fresh[st.expect_check]})
+                                      {"kind": "serve", "scenario": name, "opts": sopts.get(name, {}), "steps": [s.name for s in steps], "got": got, "fresh": fresh[st.expect_check]})
             if st.name == "stop" and code == 6:
                 stopped = True
         if not res["serving"] and res["status_file"]:
@@ -881,7 +957,7 @@ def serve_stage(ctx: vlib.Ctx, shape_flags: dict[str, bool] | None) -> None:
             blame = prev[-1] if prev else None
             key = "F3:malformed-stop-leaves-status-file" if blame is not None and any(s.name == "malformed-stop" for s in steps) else f"F3:status-file-remains:{name}"
             ctx.violation(key, f"scenario {name}: the daemon has exited but its status file is still there",
-                          {"kind": "serve", "scenario": name, "steps": [s.name for s in steps], "replies": res["replies"], "log": res["log"][-800:]})
+                          {"kind": "serve", "scenario": name, "opts": sopts.get(name, {}), "steps": [s.name for s in steps], "replies": res["replies"], "log": res["log"][-800:]})
         if res["serving"] and stopped:
             ctx.violation(f"F3:alive-after-stop:{name}", f"scenario {name}: daemon still serving after stop", {"kind": "serve", "scenario": name})
     # the idle exit (`dmypy start --timeout N`: accept times out, IPCException leaves the loop through `finally`)
@@ -956,7 +1032,9 @@ def run(ctx: vlib.Ctx) -> None:
     except Exception as e:  # noqa
         ctx.broke("C", "client stage glue", repr(e))
     if shape_flags is not None:
-        repaired = all(shape_flags.values())
+        repaired = all(shape_flags[k] for k in ("recv_catch_os", "recv_catch_unicode", "reset_on_accept", "args_validated", "send_guarded"))
+        ctx.cov["stall_verdict"] = ("stalled_client_does_not_block_forever applies" if shape_flags["conn_timeout"] else "stalled_client_blocks_refuted applies (accepted connection has no receive timeout)")
+        ctx.cov["output_verdict"] = ("WriteToConn tolerates a gone client" if shape_flags["stdout_guarded"] else "hangup_during_output_refuted applies (WriteToConn.write unguarded)")
         ctx.cov["serve_loop_verdict"] = ("daemon_survives / failed_request_preserves_state / later_requests_unaffected / status_file_removed_on_exit "
                                          "apply (repaired loop)" if repaired else
                                          "daemon_survives_refuted applies (receive() unguarded)" if not shape_flags["recv_catch_os"] else
@@ -987,10 +1065,12 @@ def replay(ctx: vlib.Ctx, path: str) -> None:
             flags = {}
         faults = fault_steps(bool(flags.get("args_validated")))
         steps = []
+        vb = verbose_steps()
         for n in r["steps"]:
-            steps.append(faults[n] if n in faults else stop_step() if n == "stop" else
+            steps.append(faults[n] if n in faults else vb[n] if n in vb else idle_step() if n == "idle" else
+                         stalled_step(int(n.split("@")[1])) if n.startswith("stalled@") else stop_step() if n == "stop" else
                          check_step(n[6:], edit={"v1": V1, "v2": V2}[n[6:]]) if n.startswith("check-") else probe(n))
-        res = run_scenario(steps, None)
+        res = run_scenario(steps, None, r.get("opts") or None)
         for st, code in zip(steps, res["replies"]):
             print(f"  {st.name:22s} -> {REPLY_NAMES[code]}")
         print("daemon still serving:", res["serving"], " status file present:", res["status_file"])
